@@ -53,8 +53,8 @@ def mirror_ok(dump):
 
 def gen_conc_case(cid, rnd):
     h = histgen.gen_history(rnd, root="/vp%d" % (cid % 5))
-    base = h["versions"][:5]
-    edits = h["versions"][5:]
+    base = h["versions"][:h["nfiles"]]
+    edits = h["versions"][h["nfiles"]:]
     # hazard: one file holds the last definition of a name and drops it while another adds it
     root = "/vp%d" % (cid % 5)
     hz_a, hz_b = root + "/pkg/test_hz_a.py", root + "/test_hz_b.py"
